@@ -301,5 +301,5 @@ func sampleTimes(s *Strm) []string {
 var _ = chsim.Date(0)
 
 func addLabels(r *evid.Run) {
-	evid.Add(r, evid.Prop[labelsCase]{Name: "labels", Quick: 500, Thorough: 5000, Gen: genLabels, Pred: predLabels})
+	evid.Add(r, evid.Prop[labelsCase]{Name: "labels", Quick: 1000, Thorough: 5000, Gen: genLabels, Pred: predLabels})
 }
